@@ -522,3 +522,132 @@ pub proof fn lemma_position_alt(inp: Seq<char>, lo: Seq<usize>, k: int, g: int)
     }
     lemma_position_exact(inp, lo, k - 1, g);
 }
+
+// ---------------------------------------------------------------- C01: the whole token stream (statement-level corollary of the per-call contracts)
+/// the scanner configuration with another current mode
+pub open spec fn with_mode<M: Fn(CharClassID, char) -> bool>(s: ScannerImpl<M>, mode: usize) -> ScannerImpl<M> {
+    ScannerImpl { current_mode: mode, ..s }
+}
+
+/// toks is the complete stream an iterator yields from char index q in mode `mode`: each token is the next one
+/// (is_next_tok = what next_match ensures), the mode follows the transitions, and after the last token nothing matches
+pub open spec fn stream_from<M: Fn(CharClassID, char) -> bool>(s: ScannerImpl<M>, inp: Seq<char>, q: int, mode: usize, toks: Seq<Match>) -> bool
+    decreases toks.len()
+{
+    if toks.len() == 0 { no_more(with_mode(s, mode), inp, q) } else {
+        exists|q1: int| #[trigger] is_next_tok(with_mode(s, mode), inp, q, toks[0], q1)
+            && stream_from(s, inp, q1, next_mode(with_mode(s, mode), toks[0].token_type), toks.drop_first())
+    }
+}
+
+pub open spec fn la_free<M: Fn(CharClassID, char) -> bool>(s: ScannerImpl<M>) -> bool {
+    forall|i: int| 0 <= i < s.scanner_modes@.len() ==> (#[trigger] s.scanner_modes@[i]).dfa.lookaheads@.len() == 0
+}
+
+/// two outcomes of "the next token from q" coincide when the active mode has no lookaheads
+pub proof fn lemma_next_tok_unique<M: Fn(CharClassID, char) -> bool>(s: ScannerImpl<M>, inp: Seq<char>, q: int, m1: Match, q1: int, m2: Match, q2: int)
+    requires
+        scanner_wf(s), mode_ok(s), s.scanner_modes@[s.current_mode as int].dfa.lookaheads@.len() == 0, 0 <= q,
+        is_next_tok(s, inp, q, m1, q1), is_next_tok(s, inp, q, m2, q2),
+    ensures m1.span.start == m2.span.start, m1.span.end == m2.span.end, m1.token_type == m2.token_type, q1 == q2
+{
+    let p1 = choose|p: int| q <= p < inp.len() && (forall|x: int| q <= x < p ==> no_cand_at(s, inp, x)) && #[trigger] tok_at(s, inp, p, m1)
+        && p < q1 <= inp.len() && boff(inp, q1) == m1.span.end;
+    let p2 = choose|p: int| q <= p < inp.len() && (forall|x: int| q <= x < p ==> no_cand_at(s, inp, x)) && #[trigger] tok_at(s, inp, p, m2)
+        && p < q2 <= inp.len() && boff(inp, q2) == m2.span.end;
+    let d = cur_dfa(s);
+    let cls = cur_cls(s);
+    assert(mode_wf(s.scanner_modes@[s.current_mode as int], s.scanner_modes@.len() as int));
+    // a token at p is a candidate at p
+    let l1 = lemma_find_post_len(d, cls, inp.skip(p1), boff(inp, p1), m1);
+    let l2 = lemma_find_post_len(d, cls, inp.skip(p2), boff(inp, p2), m2);
+    if p1 < p2 { lemma_tok_is_cand(d, cls, inp.skip(p1), boff(inp, p1), m1); assert(no_cand_at(s, inp, p1)); }
+    if p2 < p1 { lemma_tok_is_cand(d, cls, inp.skip(p2), boff(inp, p2), m2); assert(no_cand_at(s, inp, p2)); }
+    assert(p1 == p2);
+    lemma_find_post_unique(d, cls, inp.skip(p1), boff(inp, p1), m1, m2);
+    lemma_boff_inj(inp, q1, q2);
+}
+
+pub proof fn lemma_tok_is_cand(d: DfaCore, cls: Cls, text: Seq<char>, base: nat, m: Match)
+    requires find_post(d, cls, text, base, Some(m))
+    ensures exists|l: int, tid: TerminalID| #[trigger] cand(d, cls, text, l, tid)
+{
+    let tid = TerminalID(m.token_type as u32);
+    let l = choose|l: int| #[trigger] cand(d, cls, text, l, tid)
+        && m.span.end == base + blen(text.take(l))
+        && forall|l2: int, tid2: TerminalID| #[trigger] cand(d, cls, text, l2, tid2) ==> no_better(d, cls, text, l, tid, l2, tid2);
+    assert(cand(d, cls, text, l, tid));
+}
+
+/// C01 "exactly the tokens": for a configuration without lookaheads the stream from a position and mode is unique
+pub proof fn lemma_stream_unique<M: Fn(CharClassID, char) -> bool>(s: ScannerImpl<M>, inp: Seq<char>, q: int, mode: usize, t1: Seq<Match>, t2: Seq<Match>)
+    requires
+        scanner_wf(s), la_free(s), mode < s.scanner_modes@.len(), 0 <= q,
+        stream_from(s, inp, q, mode, t1), stream_from(s, inp, q, mode, t2),
+    ensures
+        t1.len() == t2.len(),
+        forall|i: int| 0 <= i < t1.len() ==> (#[trigger] t1[i]).token_type == t2[i].token_type && t1[i].span.start == t2[i].span.start && t1[i].span.end == t2[i].span.end,
+    decreases t1.len()
+{
+    let sm = with_mode(s, mode);
+    assert(scanner_wf(sm)) by {
+        assert forall|i: int| 0 <= i < sm.scanner_modes@.len() implies mode_wf(#[trigger] sm.scanner_modes@[i], sm.scanner_modes@.len() as int) by {
+            assert(mode_wf(s.scanner_modes@[i], s.scanner_modes@.len() as int));
+        }
+    }
+    assert(mode_wf(s.scanner_modes@[mode as int], s.scanner_modes@.len() as int));
+    if t1.len() == 0 && t2.len() > 0 {
+        let q1 = choose|q1: int| #[trigger] is_next_tok(sm, inp, q, t2[0], q1) && stream_from(s, inp, q1, next_mode(sm, t2[0].token_type), t2.drop_first());
+        lemma_next_tok_contradicts_no_more(sm, inp, q, t2[0], q1);
+    } else if t2.len() == 0 && t1.len() > 0 {
+        let q1 = choose|q1: int| #[trigger] is_next_tok(sm, inp, q, t1[0], q1) && stream_from(s, inp, q1, next_mode(sm, t1[0].token_type), t1.drop_first());
+        lemma_next_tok_contradicts_no_more(sm, inp, q, t1[0], q1);
+    } else if t1.len() > 0 {
+        let q1 = choose|q1: int| #[trigger] is_next_tok(sm, inp, q, t1[0], q1) && stream_from(s, inp, q1, next_mode(sm, t1[0].token_type), t1.drop_first());
+        let q2 = choose|q2: int| #[trigger] is_next_tok(sm, inp, q, t2[0], q2) && stream_from(s, inp, q2, next_mode(sm, t2[0].token_type), t2.drop_first());
+        lemma_next_tok_unique(sm, inp, q, t1[0], q1, t2[0], q2);
+        let nm = next_mode(sm, t1[0].token_type);
+        // the next mode is an existing mode
+        let ts = sm.scanner_modes@[mode as int].transitions@;
+        lemma_next_mode_ok(sm, t1[0].token_type);
+        lemma_stream_unique(s, inp, q1, nm, t1.drop_first(), t2.drop_first());
+        assert forall|i: int| 0 <= i < t1.len() implies (#[trigger] t1[i]).token_type == t2[i].token_type && t1[i].span.start == t2[i].span.start && t1[i].span.end == t2[i].span.end by {
+            if i > 0 { assert(t1[i] == t1.drop_first()[i - 1]); assert(t2[i] == t2.drop_first()[i - 1]); }
+        }
+    }
+}
+
+pub proof fn lemma_next_tok_contradicts_no_more<M: Fn(CharClassID, char) -> bool>(s: ScannerImpl<M>, inp: Seq<char>, q: int, m: Match, q1: int)
+    requires is_next_tok(s, inp, q, m, q1), no_more(s, inp, q)
+    ensures false
+{
+    let p = choose|p: int| q <= p < inp.len() && (forall|x: int| q <= x < p ==> no_cand_at(s, inp, x)) && #[trigger] tok_at(s, inp, p, m)
+        && p < q1 <= inp.len() && boff(inp, q1) == m.span.end;
+    lemma_tok_is_cand(cur_dfa(s), cur_cls(s), inp.skip(p), boff(inp, p), m);
+    assert(no_cand_at(s, inp, p));
+}
+
+pub proof fn lemma_next_mode_ok<M: Fn(CharClassID, char) -> bool>(s: ScannerImpl<M>, tt: usize)
+    requires scanner_wf(s), mode_ok(s)
+    ensures next_mode(s, tt) < s.scanner_modes@.len()
+{
+    let ts = s.scanner_modes@[s.current_mode as int].transitions@;
+    assert(mode_wf(s.scanner_modes@[s.current_mode as int], s.scanner_modes@.len() as int));
+    if tr_lookup(ts, tt) is Some {
+        // the chosen witness satisfies transition_of if any does
+        if exists|r: Option<usize>| transition_of(ts, tt, r) {
+            let r = tr_lookup(ts, tt);
+            assert(transition_of(ts, tt, r));
+            let i = choose|i: int| 0 <= i < ts.len() && #[trigger] ts[i].0.0 as usize == tt && ts[i].1.0 == r->0;
+            assert(ts[i].1.0 < s.scanner_modes@.len());
+        } else {
+            // no witness at all: transition_of(ts, tt, None) or Some(..) must hold for some r
+            if forall|i: int| 0 <= i < ts.len() ==> #[trigger] ts[i].0.0 as usize != tt {
+                assert(transition_of(ts, tt, None));
+            } else {
+                let i = choose|i: int| 0 <= i < ts.len() && #[trigger] ts[i].0.0 as usize == tt;
+                assert(transition_of(ts, tt, Some(ts[i].1.0)));
+            }
+        }
+    }
+}
